@@ -16,6 +16,8 @@ CONSTANTS
   SupervisorOrClosed = %(guard)s
   RetryByEpoch = %(guard)s
   AllowClose = %(close)s
+  EpochBeforeResume = %(ebr)s
+  HalfBroken = %(half)s
 %(view)s
 INVARIANTS %(invs)s
 %(constraint)s
@@ -34,11 +36,11 @@ def q(xs):
 
 
 def write_cfg(name, streams=("S1", "S2"), callers=("P1",), faults=1, dialfails=1, resumeng=1, fixed=True, close=True, view=True,
-              invs=INVS, gen=False):
+              invs=INVS, gen=False, epoch_before_resume=True, half=False):
     with open(os.path.join(SPEC, name), "w") as f:
         f.write(CFG % dict(streams=q(streams), callers=q(callers), faults=faults, dialfails=dialfails, resumeng=resumeng,
                            epoch=b(fixed), hook=b(fixed), guard=b(fixed), close=b(close), view="VIEW View" if view else "",
-                           invs=invs, constraint="CONSTRAINT GenPrint" if gen else ""))
+                           invs=invs, constraint="CONSTRAINT GenPrint" if gen else "", ebr=b(epoch_before_resume), half=b(half)))
     return name
 
 
@@ -110,6 +112,9 @@ def from_model_script(sid, script, streams=("S1", "S2"), dial_delay=40, ping=(10
         if a == "cut":
             ncut += 1
             steps.append({"a": "cut"})
+        elif a == "wfail":
+            ncut += 1
+            steps.append({"a": "rule", "rule": {"on": "*", "inc": -1, "do": "failWrite"}})
         elif a == "dial" and op["ok"]:
             steps.append({"a": "await", "ev": "Reconnected", "n": len([x for x in steps if x.get("ev") == "Reconnected"]) + 1, "ms": 4000})
         elif a == "api":
@@ -193,6 +198,32 @@ def gated(tag):
                           {"a": "release", "gate": "w"}, {"a": "sleep", "ms": 300}]
                 steps += probes(ss) + teardown(ss)
                 scs.append({"id": "%s/gated/%s/nth%d/d%d" % (tag, s_, nth, delay), "kind": "iscp", "conn": conn, "steps": steps})
+    return scs
+
+
+def resume_overlap(tag):
+    """a second outage is decided while the resume request of the first one is still unanswered: the client-side write of an application
+    request fails on the new connection (its read direction keeps working), the application's Disconnected handler takes its time, and
+    the broker answers the held resume request in the meantime. The stream then believes it is resumed - on a connection that is
+    being replaced: it must be resumed once more on the next connection (ConnLifecycle.tla: the stream's epoch is read before the
+    resume exchange, so the later outage is noticed)."""
+    scs = []
+    for ss, kind in ((("S1",), "UpstreamResumeRequest"), (("S2",), "DownstreamResumeRequest"), (("S1", "S2"), "UpstreamResumeRequest"),
+                     (("S1", "S2"), "DownstreamResumeRequest")):
+        for delay in (0, 40):
+            conn = {"pingMs": [2000, 2000], "dialDelayMs": delay}
+            steps = [{"a": "holdHandler", "mode": "Disconnected", "n": 2, "gate": "d"}] + prelude(ss, conn)
+            steps += [{"a": "rule", "rule": {"on": kind, "nth": 1, "do": "hold", "arg": 1}},
+                      {"a": "cut"}, {"a": "await", "ev": "Reconnected", "n": 1, "ms": 4000, "must": True},
+                      {"a": "await", "ev": "Fault", "match": {"do": "hold", "on": kind}, "ms": 2000, "must": True},
+                      {"a": "rule", "rule": {"on": "UpstreamMetadata", "inc": 2, "do": "failWrite"}},
+                      {"a": "sendMeta", "g": "P1", "tag": 7, "ctxMs": 4000},
+                      {"a": "await", "ev": "HandlerHeld", "ms": 2000, "must": True},
+                      {"a": "release", "gate": "hold1"}, {"a": "sleep", "ms": 60},
+                      {"a": "release", "gate": "d"}, {"a": "await", "ev": "Reconnected", "n": 2, "ms": 4000},
+                      {"a": "join", "obj": "P1"}, {"a": "sleep", "ms": 300}]
+            steps += probes(ss) + teardown(ss)
+            scs.append({"id": "%s/resumeOverlap/%s/%s/d%d" % (tag, "+".join(ss), kind[:2], delay), "kind": "iscp", "conn": conn, "steps": steps})
     return scs
 
 
